@@ -23,7 +23,7 @@ def gen(rnd, k):
         dl = [s for s in S["stocks"] if s["delisted"] is not None]
         others = [s for s in S["stocks"] if s["delisted"] is None]
         if dl and others:
-            S["trf"][dl[0]["id"]] = {"successor": others[0]["id"], "share_conversion_ratio": rnd.choice([0.5, 1.0, 2.0])}
+            S["trf"][dl[0]["id"]] = {"successor": others[0]["id"], "share_conversion_ratio": rnd.choice([0.5, 1.0, 2.0, 0.3276])}
     cfgk = trading.gen_config(rnd, S, {"p_reinvest": 0.4, "p_init_pos": 0.2})
     return S, cfgk
 
